@@ -434,15 +434,18 @@ class Connection(ExportImport):
                 del obj._p_oid
                 if obj._p_changed:
                     obj._p_changed = False
-            elif (oid in self._creating
-                  or (self._savepoint_storage is not None
-                      and oid in self._savepoint_storage.creating)):
+            elif (not isinstance(obj, Blob)
+                  and (oid in self._creating
+                       or (self._savepoint_storage is not None
+                           and oid in self._savepoint_storage.creating))):
                 # A new object that the failed commit, or a savepoint, had
                 # already stored.  It has no committed state to go back to:
                 # invalidating it here would throw its only state away.
                 # The callers disown it (_invalidate_creating) or, for a
                 # rollback to a savepoint that already held it, invalidate
                 # it afterwards so that it reloads its savepoint state.
+                # (A blob keeps its data in files; invalidating it is what
+                # removes its uncommitted file.)
                 pass
             else:
                 # Note: If we invalidate a non-ghostifiable object
